@@ -108,3 +108,19 @@ def path_tokens():
                 if 2 <= len(v) <= 32 and '/' in v and v.isascii() and v.isprintable() and not set(v) & set('"\', ()*'):
                     out.add(v)
     return sorted(out)
+
+
+@functools.lru_cache(maxsize=None)
+def size_constants(lo=100, hi=1 << 20):
+    """integer constants between `lo` and `hi` in the package's non-decoder modules (pairing, container reading, listings,
+    callstacks): candidate block sizes, caps and limits. Generators use them (+ a few) as record / thread / window counts."""
+    out = set()
+    for p in sorted((REPO_ROOT / 'pykdebugparser').glob('*.py')):
+        try:
+            tree = ast.parse(p.read_text())
+        except SyntaxError:
+            continue
+        for n in ast.walk(tree):
+            if isinstance(n, ast.Constant) and isinstance(n.value, int) and not isinstance(n.value, bool) and lo <= n.value <= hi:
+                out.add(n.value)
+    return sorted(out)
